@@ -100,6 +100,18 @@ def model (f : List String) : String :=
     match (if ops = "" then some [] else (ops.splitOn ";").mapM parseO) with
     | some ops => ";".intercalate (runO ⟨List.replicate 3 none, []⟩ ops)
     | none => "bad-op"
+  | ["og", ops] =>      -- optional of a type with a catch-all converting constructor: the same model
+    match (if ops = "" then some [] else (ops.splitOn ";").mapM parseO) with
+    | some ops => ";".intercalate (runO ⟨List.replicate 3 none, []⟩ ops)
+    | none => "bad-op"
+  | ["ob", ops] =>      -- optional<bool>: the harness stores `v odd`
+    match (if ops = "" then some [] else (ops.splitOn ";").mapM parseO) with
+    | some ops =>
+      let ops := ops.map fun (o, r) => (match o with
+        | some (.setValue i v) => some (OOp.setValue i (if v % 2 = 0 then 0 else 1))
+        | o => o, r)
+      ";".intercalate (runO ⟨List.replicate 3 none, []⟩ ops)
+    | none => "bad-op"
   | ["e", name, state, value, dflt] =>
     match unhex name, unhex value, unhex dflt with
     | some _, some v, some d =>
